@@ -25,12 +25,16 @@ def plan(tier, seed):
                  payload=dict(func="vf.pyshim.lemma_time:time_roundtrip")),
             dict(name="C01-lemma-timedelta-micros", kind="pyfunc", timeout=400,
                  payload=dict(func="vf.pyshim.lemma_time:timedelta_micros")),
+            dict(name="C01-lemma-find-type", kind="pyfunc", timeout=400,
+                 payload=dict(func="vf.pyshim.lemma_types:find_type_roundtrip")),
             dict(name="C01-lemma-range-index", kind="pyfunc", timeout=300,
                  payload=dict(func="vf.pyshim.lemmas:range_index", kwargs=dict(max_step=6)))]
     wc = wc_lattice.jobs("C01", tier)
     jobs += wc if tier == "thorough" else wc[:6]
     jobs.append(ch("C01", "vf/pyshim/h_write.py", "h_write_new_options", t,
                    ["writer.write (new dataset)", "writer.write_simple / write_multi / make_metadata (signatures)"]))
+    jobs.append(ch("C01", "vf/pyshim/h_codec.py", "h_codec_dispatch", t,
+                   ["compression.compress_data", "compression.decompress_data"]))
     # text/bytes values: pack -> unpack round trip of the BYTE_ARRAY codec without trailing padding (dictionary pages,
     # v2 data pages), lifted speedups.pyx
     from . import bytearray as BA
